@@ -185,3 +185,44 @@ def run(ctx, chk):
                 "discharges": "self.pos + 8 overflow assert, bytes[pos..pos+8], pos += 8"})
     chk.assumptions += ["debug-build MIR: arithmetic overflow appears as Assert terminators and counts as a panic site",
                         "Layout::from / Pages users doing arithmetic on decoded-and-accepted values are outside the decoder set"]
+
+
+def thorough(ctx, chk):
+    """derive-generated Bytes impls: analyse the test targets of vecdb_derive (macro expansions are only visible
+    in a crate that uses the derive)."""
+    import glob
+    import os
+    import shutil
+    import tempfile
+    import facts
+    import program
+    repo = os.environ.get("VERIF_REPO_OVERRIDE") or facts.REPO
+    tests = sorted(os.path.splitext(os.path.basename(f))[0]
+                   for f in glob.glob(os.path.join(repo, "crates", "vecdb_derive", "tests", "*.rs")))
+    if not tests:
+        raise AnchorMissing("vecdb_derive has no test targets")
+    out = tempfile.mkdtemp(prefix="verif-derive-")
+    try:
+        facts.extract(repo, "derive-tests", out, packages=("vecdb_derive",), dump=tuple(tests), extra_args=("--tests",),
+                      require=tuple(t + ".test" for t in tests))
+        n = 0
+        for t in tests:
+            crate = facts.load_crate(os.path.join(out, t + ".test.json"))
+            P2 = program.Program([crate])
+            D = decode.Decode(P2)
+            for bid, body in sorted(P2.bodies.items()):
+                if re.search(r"vecdb::bytes::Bytes for .*>::from_bytes$", bid) or (
+                        bid.endswith("::from_bytes") and "Bytes" in (body.trait_method or "")):
+                    n += 1
+                    res = D.analyze(body)
+                    bad = [s for s in res["sites"] if not s["ok"]]
+                    delegates = any(any(x.endswith("Bytes::from_bytes") for x in names(tm)) for _, tm in body.calls())
+                    chk.oblige("D5 derive-generated %s (test target %s): no undischarged panic/allocation site and "
+                               "delegates to the inner from_bytes" % (bid.split(" for ")[-1], t), not bad and delegates,
+                               detail={"sites": bad}, key="D5|derive|%s|%s" % (t, bid.split(" for ")[-1]),
+                               msg="a derived decoder must not add panic sites of its own")
+        if n < 3:
+            raise AnchorMissing("expected >= 3 derive-generated from_bytes bodies in vecdb_derive test targets, found %d" % n)
+        chk.cov["derive_generated_decoders"] = n
+    finally:
+        shutil.rmtree(out, ignore_errors=True)
